@@ -258,6 +258,12 @@ func containsSym(x value) bool {
 
 // equals returns x == y for type t as a value: a bool, or a *sym of kind Bool.
 func (m *Machine) equals(t types.Type, x, y value) value {
+	if lz, ok := x.(*lazyVal); ok {
+		x = m.force(lz)
+	}
+	if lz, ok := y.(*lazyVal); ok {
+		y = m.force(lz)
+	}
 	switch x := x.(type) {
 	case *sym:
 		return m.symEq(x, y)
@@ -412,6 +418,9 @@ func hash(t types.Type, x value) int {
 
 // load returns the value of type T in *addr.
 func load(T types.Type, addr *value) value {
+	if lz, ok := (*addr).(*lazyVal); ok {
+		return lz // markers are immutable descriptors: sharing is copying
+	}
 	switch T := T.Underlying().(type) {
 	case *types.Struct:
 		v := (*addr).(structure)
@@ -434,6 +443,14 @@ func load(T types.Type, addr *value) value {
 
 // store stores value v of type T into *addr.
 func store(T types.Type, addr *value, v value) {
+	if _, ok := (*addr).(*lazyVal); ok {
+		*addr = copyVal(v) // the whole (unmaterialised) cell is overwritten
+		return
+	}
+	if _, ok := v.(*lazyVal); ok {
+		*addr = v
+		return
+	}
 	switch T := T.Underlying().(type) {
 	case *types.Struct:
 		lhs := (*addr).(structure)
